@@ -117,11 +117,91 @@ func queryProbe(c *Ctx, r *Rng) ([]byte, int) {
 	return []byte(sb.String()), 1 + r.Intn(n)
 }
 
+// userProbe builds a program that defines documented user methods — instance, class-level,
+// inside a nested module, inherited, overridden, same name in two classes — and then calls
+// each of them on a line of its own. It returns the program and the rows of those calls,
+// where the editor queries have something to say.
+func userProbe(r *Rng) ([]byte, []int) {
+	var sb strings.Builder
+	row := 0
+	line := func(s string) { sb.WriteString(s + "\n"); row++ }
+	doc := func(ind string) {
+		if r.Chance(2, 3) {
+			for k := 0; k < 1+r.Intn(2); k++ {
+				line(ind + "# ti-doc: " + docText(r))
+			}
+		}
+	}
+	nested := r.Chance(1, 2)
+	ind := ""
+	if nested {
+		line("module Shop")
+		ind = "  "
+	}
+	line(ind + "class Base")
+	doc(ind + "  ")
+	line(ind + "  def greet(name, times = 1)")
+	line(ind + "    name")
+	line(ind + "  end")
+	doc(ind + "  ")
+	line(ind + "  def self.build(kind)")
+	line(ind + "    new")
+	line(ind + "  end")
+	line(ind + "end")
+	line(ind + "class Greeter < Base")
+	if r.Chance(1, 2) {
+		doc(ind + "  ")
+		line(ind + "  def greet(name, times = 2)")
+		line(ind + "    times")
+		line(ind + "  end")
+	}
+	doc(ind + "  ")
+	line(ind + "  def shout(word)")
+	line(ind + "    word.upcase")
+	line(ind + "  end")
+	line(ind + "end")
+	q := ""
+	if nested {
+		line("end")
+		q = "Shop::"
+	}
+	doc("")
+	line("def helper(x)")
+	line("  x")
+	line("end")
+	// bodies whose lines call several user methods at once (call-graph edges that share a row)
+	line("def combo(a, b)")
+	line("  helper(a.greet(\"x\")) + helper(b.shout(\"y\"))")
+	line("  a.greet(b.shout(\"w\"))")
+	if r.Chance(1, 2) {
+		line("  helper(1); helper(2); a.shout(\"v\")")
+	}
+	line("end")
+	var rows []int
+	call := func(s string) { line(s); rows = append(rows, row) }
+	call("g = " + q + "Greeter.new")
+	call("b = " + q + "Base.build(:x)")
+	call("g.greet(\"a\")")
+	call("r = g.greet(\"a\", 3)")
+	call("g.shout(\"w\")")
+	call("b.greet(\"z\")")
+	call("helper(1)")
+	call("combo(g, g)")
+	call("g.")
+	call(q + "Greeter.")
+	call("g.sh")
+	return []byte(sb.String()), rows
+}
+
 func (o *confluence) Make(c *Ctx, i int) *Case {
 	r := Stream(c.Seed, "C05", i, "case")
 	src, origin := pickProgram(c, r, true)
 	if origin == "generated" || r.Chance(1, 5) {
 		src, origin = Generate(r, c.Builtins, true), "generated-ties"
+	}
+	if r.Chance(1, 12) {
+		src, _ = userProbe(r)
+		origin = "user-probe"
 	}
 	mode := c05Modes(r, src)
 	if r.Chance(1, 5) {
@@ -131,6 +211,12 @@ func (o *confluence) Make(c *Ctx, i int) *Case {
 		src, row = queryProbe(c, r)
 		origin = "query-probe"
 		mode = []string{r.Pick(queryModes), fmt.Sprintf("--row=%d", row)}
+		if r.Chance(1, 3) {
+			var rows []int
+			src, rows = userProbe(r)
+			origin = "user-probe"
+			mode[1] = fmt.Sprintf("--row=%d", rows[r.Intn(len(rows))])
+		}
 	}
 	cs := &Case{Prop: "C05", Kind: "confluence", Index: i, Cfg: "shipped-test", Meta: map[string]string{"origin": origin}}
 	if r.Chance(1, 8) {
